@@ -332,6 +332,33 @@ func c26(r *core.Run) {
 		r.Check("C26.F2", core.Key("C26.F2", fn, "deletes the entry"), fn.Pos(), n >= 1,
 			"the flag entry is removed", core.FuncName(fn)+" no longer deletes from b.peers")
 	}
+	// F2 (unconditional): a success always clears the flag — every return of Unflag is
+	// preceded by the delete of the peer's entry, whatever the network status (a success that
+	// arrives during an outage still ends the flag period)
+	{
+		var dels []ssa.Instruction
+		core.EachInstr(unflag, func(_ *ssa.BasicBlock, _ int, in ssa.Instruction) {
+			if d, ok := in.(*ssa.Call); ok {
+				if _, isDel := isBuiltinCall(d, "delete"); isDel && loadsField(B, "peers")(core.Forward(d.Call.Args[0])) {
+					dels = append(dels, in)
+				}
+			}
+		})
+		core.EachInstr(unflag, func(b *ssa.BasicBlock, _ int, in ssa.Instruction) {
+			ret, ok := in.(*ssa.Return)
+			if !ok || b == unflag.Recover {
+				return
+			}
+			cleared := false
+			for _, d := range dels {
+				if core.Precedes(d, ret) {
+					cleared = true
+				}
+			}
+			r.Check("C26.F2", lsKey("C26.F2", unflag, "every return has cleared the flag"), ret.Pos(), cleared,
+				"Unflag clears the peer's flag on every path", "Unflag can return without deleting the peer's entry (e.g. while the network is unavailable): a peer that succeeded since it was flagged is blocklisted once the clock resumes")
+		})
+	}
 	// PruneUnseen deletes only unseen
 	var isSeenCall *ssa.Call
 	core.EachInstr(prune, func(_ *ssa.BasicBlock, _ int, in ssa.Instruction) {
